@@ -239,11 +239,13 @@ def rule_qm(ctx):
     """'any letter case in the qualifier keys' is honoured by the qualifier map: the keys reported are the stored ones, found
     and ordered by its comparator (C11's representation invariant)."""
     from . import C11
-    C11.invariant_obligations(ctx, ctx.facts(), rule="QM-INV")
+    from .common import ScopedCtx, parser_scope
+    # only the part of the invariant the parser can reach (entry / insert / lookups / retain), not e.g. remove
+    C11.invariant_obligations(ScopedCtx(ctx, parser_scope(ctx.facts())), ctx.facts(), rule="QM-INV")
 
 
 RULES = [
-    ("QM-INV", rule_qm, 40),
+    ("QM-INV", rule_qm, 25),
     ("GRAMMAR", lambda ctx: (rule_grammar(ctx), rule_segments(ctx), rule_qloop(ctx)), 23),
     ("DECODE-ALL", lambda ctx: None, 7),
     ("ALPHABET", rule_alphabet, 2),
